@@ -25,7 +25,12 @@ ASSUMPTIONS = [
     "ValueError / TimeoutError / OSError / AssertionError; sys.exit codes are non-negative ints, None or a string",
     "a database that cannot be opened is represented by a file that is not a database and by a foreign schema version; faults "
     "inside `_db_finish_run_meta` (Ctrl-C while the run_meta row is completed / while the connection is closed in the "
-    "`finally:` block) are not modelled",
+    "`finally:` block) are not modelled in Model/Lifecycle.lean; Model/LifecycleDb.lean models them statement by statement: one fault "
+    "(sqlite3.OperationalError before the statement is performed / Ctrl-C while it is awaited, the statement being performed by the "
+    "sqlite thread) at any awaited execute / executescript / commit of DBHandler.connect, insert_run_meta, complete_run_meta, "
+    "disconnect, injected by wrapping aiosqlite.Connection (main task only, counted per call). An OperationalError inside "
+    "complete_run_meta is compared with the model but a completed row is not demanded (the database refuses that very write). Three "
+    "fault points break the property on the tree as it is (known_findings.jsonl; `Fault.bad`)",
     "the lock file: 'cannot be locked' is represented by a lock file below a missing directory / below a regular file (any "
     "OSError of open / flock takes the same `except OSError` -> exit 72); 'held by somebody else' by a second descriptor in "
     "the same process that releases it once the run has logged that it waits; Ctrl-C during that wait by SIGINT / "
